@@ -26,6 +26,7 @@ from sim.executors import sim_as_completed, sim_wait
 import concurrent.futures as _cf
 from sim.runner import new_result, scratch_root
 from sim.seams import patched, NoGC, import_typhon, fresh_dir
+from sim.seams import deterministic_tempnames
 from sim import digest_of
 from props import naming
 
@@ -125,6 +126,16 @@ def _rel(path):
 def reader(file_info):
     st = ST
     rel = _rel(file_info.path)
+    data = None
+    if not file_info.path.endswith(".nc"):
+        # an input file names itself (under transparent decompression the
+        # handler is given a temporary copy with another name)
+        try:
+            with open(file_info.path, "rb") as f:
+                data = pickle.load(f)
+            rel = getattr(data, "attrs", {}).get("rel", rel)
+        except Exception:  # noqa: judged below, after the bookkeeping
+            data = None
     st.reads[rel] = st.reads.get(rel, 0) + 1
     sim = st.sim
     sim.event("read", rel)
@@ -144,6 +155,8 @@ def reader(file_info):
         raise InjectedReadError(5, f"injected EIO reading {rel}")
     if file_info.path.endswith(".nc"):
         return _T["NetCDF4"]().read(file_info)
+    if data is not None:
+        return data
     with open(file_info.path, "rb") as f:
         return pickle.load(f)
 
@@ -247,6 +260,7 @@ def gen_workload(tape):
     w["output"] = tape.pick(["memory", "fileset", "search"], "output")
     w["max_threads"] = tape.pick([3, 1, 2], "threads")
     w["out_dirs"] = tape.flag("out_dirs", 1, 2)      # output template with sub directories
+    w["gz"] = tape.flag("gz_inputs", 1, 3)           # gzip-compressed input files
     w["out_nc"] = tape.flag("out_nc", 1, 2)          # output files in NetCDF4 (typhon's default)
     # rarely: one file of each fileset is dense (> 10^6 candidate pairs for that
     # file pair -> the temporally pre-binned search inside a worker)
@@ -292,7 +306,14 @@ def _times(w, side, k):
 
 def _relpath(w, side, k):
     t0, t1 = _times(w, side, k)
-    return side + "/" + naming.fmt(TEMPLATES[w[side]["tmpl"]][0], t0, t1)
+    return side + "/" + naming.fmt(_tmpl(w, side), t0, t1)
+
+
+def _tmpl(w, side):
+    """The fileset's template; with w['gz'] the input files are gzip-compressed
+    (typhon decompresses transparently, by the suffix)."""
+    t = TEMPLATES[w[side]["tmpl"]][0]
+    return t + ".gz" if w.get("gz") else t
 
 
 def _points(w, side):
@@ -376,14 +397,20 @@ def _make_files(w, root, xr):
                 "lat": ("n", np.array([p["lat"] for p in ps], dtype=float)),
                 "lon": ("n", np.array([p["lon"] for p in ps], dtype=float)),
                 "id": ("n", np.array([p["id"] for p in ps], dtype=np.int64)),
-            }, coords={"n": np.arange(len(ps)) * 3 + 7})   # unique labels
+            }, coords={"n": np.arange(len(ps)) * 3 + 7},   # unique labels
+                attrs={"rel": rel})
             path = os.path.join(root, rel)
             os.makedirs(os.path.dirname(path), exist_ok=True)
-            with open(path, "wb") as fh:
-                pickle.dump(ds, fh, protocol=pickle.HIGHEST_PROTOCOL)
+            if path.endswith(".gz"):
+                import gzip
+                with gzip.open(path, "wb") as fh:
+                    pickle.dump(ds, fh, protocol=pickle.HIGHEST_PROTOCOL)
+            else:
+                with open(path, "wb") as fh:
+                    pickle.dump(ds, fh, protocol=pickle.HIGHEST_PROTOCOL)
             # precondition self-check: the name-derived coverage contains the points
             t0, t1 = _times(w, side, f["k"])
-            tmpl, needs_cov = TEMPLATES[w[side]["tmpl"]]
+            tmpl, needs_cov = _tmpl(w, side), TEMPLATES[w[side]["tmpl"]][1]
             cov = naming.coverage(tmpl, t0, t1, _cov_td(w, side) if needs_cov else None)
             for p in ps:
                 if not (cov[0] <= p["t"] <= cov[1]):
@@ -407,6 +434,7 @@ OUT_TMPL_DIRS = ("out/{year}/{month}/{day}/{hour}{minute}{second}-{end_year}"
 # ------------------------------------------------------------------- the run
 def run_one(tape, only=None):
     _T["state"].restore()      # each run models a fresh interpreter
+    deterministic_tempnames()
     global ST
     res = new_result()
     w = gen_workload(tape)
@@ -462,14 +490,16 @@ def run_one(tape, only=None):
     orig_get = SimQueue.get
     try:
         _make_files(w, root, _T["xr"])
+        os.makedirs(os.path.join(root, "tmp"), exist_ok=True)
         handler = FileHandler(reader=reader, writer=writer)
         sets = {}
         for side in ("A", "B"):
-            tmpl, needs_cov = TEMPLATES[w[side]["tmpl"]]
+            tmpl, needs_cov = _tmpl(w, side), TEMPLATES[w[side]["tmpl"]][1]
             sets[side] = FileSet(
                 f"{root}/{side}/{tmpl}", handler=handler, name=side,
                 time_coverage=_cov_td(w, side) if needs_cov else None,
-                max_threads=w["max_threads"], fs=SimLocalFS())
+                max_threads=w["max_threads"], fs=SimLocalFS(),
+                temp_dir=os.path.join(root, "tmp"))
         out_fs = None
         if w["output"] != "memory":
             out_fs = _T["Collocations"](
